@@ -53,6 +53,7 @@ RULES = {
     "R-SET-ASSIGN": ("rules.derived", "r_set_assign"),
     "R-HASHER-SOURCE": ("rules.derived", "r_hasher_source"),
     "R-DROP-ORDER": ("rules.ownership", "r_drop_order"),
+    "R-UNCHECKED-LEDGER": ("rules.ownership", "r_unchecked_ledger"),
     "R-ACCT": ("rules.acct", "r_acct"),
     "R-CTRL-WRITE": ("rules.acct", "r_ctrl_write"),
     "R-ERASE-BEFORE": ("rules.ownership", "r_erase_before"),
@@ -270,7 +271,7 @@ for _p in PROPS:
     PROPS[_p]["extra"].append(("selfcheck", "hook", "thorough"))
 
 # rules added after the second round of independent mutations (DESIGN.md 12.6)
-_ROUND2 = {'C01': ['R-PROBE-STEP', 'R-SWEEP-RANGE', 'R-RESIZE-TARGET'], 'C02': ['R-VARIANCE', 'R-AUTO', 'R-ZST-PTR', 'R-SWEEP-RANGE', 'R-PROBE-STEP', 'R-GROUP-DEFS', 'R-ALLOC-IDENTITY'], 'C03': ['R-SWEEP-RANGE', 'R-ALLOC-IDENTITY', 'R-CLONE-GUARD-RANGE'], 'C04': ['R-SWEEP-RANGE', 'R-CLONE-GUARD-RANGE'], 'C05': ['R-SWEEP-RANGE', 'R-PROBE-STEP'], 'C06': ['R-PROBE-STEP', 'R-DROPGLUE', 'R-SWEEP-RANGE'], 'C07': ['R-SUBSET-LEN'], 'C08': ['R-RESIZE-TARGET'], 'C09': ['R-GROUP-DEFS'], 'C11': ['R-CLONE-GUARD-RANGE', 'R-ALLOC-IDENTITY'], 'C12': ['R-RESIZE-TARGET', 'R-RESERVE-GUARD'], 'C13': ['R-RESIZE-TARGET', 'R-CTRL-WRITE', 'R-SWEEP-RANGE'], 'C17': ['R-PROBE-STEP'], 'C19': ['R-PAR-CONSUME']}
+_ROUND2 = {'C01': ['R-PROBE-STEP', 'R-SWEEP-RANGE', 'R-RESIZE-TARGET'], 'C02': ['R-VARIANCE', 'R-AUTO', 'R-ZST-PTR', 'R-SWEEP-RANGE', 'R-PROBE-STEP', 'R-GROUP-DEFS', 'R-ALLOC-IDENTITY', 'R-UNCHECKED-LEDGER'], 'C03': ['R-SWEEP-RANGE', 'R-ALLOC-IDENTITY', 'R-CLONE-GUARD-RANGE'], 'C04': ['R-SWEEP-RANGE', 'R-CLONE-GUARD-RANGE'], 'C05': ['R-SWEEP-RANGE', 'R-PROBE-STEP'], 'C06': ['R-PROBE-STEP', 'R-DROPGLUE', 'R-SWEEP-RANGE'], 'C07': ['R-SUBSET-LEN'], 'C08': ['R-RESIZE-TARGET'], 'C09': ['R-GROUP-DEFS'], 'C11': ['R-CLONE-GUARD-RANGE', 'R-ALLOC-IDENTITY'], 'C12': ['R-RESIZE-TARGET', 'R-RESERVE-GUARD'], 'C13': ['R-RESIZE-TARGET', 'R-CTRL-WRITE', 'R-SWEEP-RANGE'], 'C17': ['R-PROBE-STEP'], 'C19': ['R-PAR-CONSUME']}
 for _p, _rs in _ROUND2.items():
     for _r in _rs:
         if _r not in PROPS[_p]["rules"]:
